@@ -171,7 +171,7 @@ def stripCalib (ws : List String) : List String :=
   | "calib" :: _ :: rest => rest
   | _ => ws
 
-def specC21 (st : Option Schema) (line ans : String) : Option Schema × String :=
+def specC21Main (st : Option Schema) (line ans : String) : Option Schema × String :=
   let ws := words line
   match ws with
   | "schema" :: _ :: _ :: "ABS" :: rest =>
@@ -184,6 +184,7 @@ def specC21 (st : Option Schema) (line ans : String) : Option Schema × String :
   | some (s, l, u, c) =>
     match parseModeRes s with
     | .ok sTree sRest sD sJ =>
+      if sTree == "marshal-error" then (st, "skip") else
       -- (1) lenient = strict
       match parseModeRes l with
       | .ok lTree lRest lD lJ =>
@@ -376,6 +377,7 @@ def refText (c : RCx) (mi : Nat) (fs : AFs) (n : Nat) (pm : PM) : RO PM :=
     | .any host nm =>
       if n > 1 then .reject
       else if (c.sch.msg mi).full != "google.protobuf.Any" then .reject
+      else if !anySchemaOK (c.sch.msg mi) then .noclaim "hand-written-google.protobuf.Any"
       else if host != "type.googleapis.com" && host != "type.googleprod.com" then .reject
       else match val with
         | .msg inner =>
@@ -384,7 +386,8 @@ def refText (c : RCx) (mi : Nat) (fs : AFs) (n : Nat) (pm : PM) : RO PM :=
           | some ami =>
             match refText c ami inner inner.length [] with
             | .ok ipm =>
-              if !reqV c.sch ami (.msg ipm) then .reject
+              if !utf8V c.sch ami (.msg ipm) then .noclaim "string-not-utf8"
+              else if !reqV c.sch ami (.msg ipm) then .reject
               else
                 let pm1 := pmSet pm 1 (.bytes (host ++ "/" ++ nm).toUTF8.toList)
                 refText c mi rest n (if ipm.isEmpty then pmDel pm1 2 else pmSet pm1 2 (.msg ipm))
@@ -403,7 +406,8 @@ def refText (c : RCx) (mi : Nat) (fs : AFs) (n : Nat) (pm : PM) : RO PM :=
       match fo with
       | none => .reject
       | some f =>
-        if !targetOK c.target f then .reject
+        if (msgSetGate c.sch f).isSome then .noclaim "message-set-wire-format-unsupported-by-this-build"
+        else if !targetOK c.target f then .reject
         else if !sep && !f.kind.isMessage then .reject
         else
           match val with
@@ -446,7 +450,10 @@ def refResolve (c : RCx) (mi : Nat) (p : NamePart) : RO FieldS :=
   if p.isExt then
     match c.sch.findExt p.name with
     | none => .reject
-    | some f => if f.extendee != (c.sch.msg mi).full then .reject else .ok f
+    | some f =>
+      if f.extendee != (c.sch.msg mi).full then .reject
+      else if (msgSetGate c.sch f).isSome then .noclaim "message-set-wire-format-unsupported-by-this-build"
+      else .ok f
   else
     match findByName (c.sch.msg mi).fields p.name with
     | none => .reject
@@ -581,6 +588,7 @@ def refOp (cfg : RefCfg) (s : Schema) (op : Op) (ws : List String) : RO RefResul
   | .reject => .reject
   | .noclaim w => .noclaim w
   | .ok pm =>
+    if !utf8V s mi (.msg pm) then .noclaim "string-not-utf8" else
     let validated := cfg.fieldValidation || !isField || real.any firstIsExt
     if validated && (cfg.requiredAlways || real.any firstIsExt) && !reqV s mi (.msg pm) then .reject
     else if validated && !featuresOK s (edition op.syntaxTok) mi pm then .reject
@@ -617,7 +625,7 @@ def cmpRef (r : RO RefResult) (impl : ModeRes) : Cmp :=
 /-- used to name a divergence: switching one protoc rule off makes the difference disappear -/
 def isAgree : Cmp → Bool | .agree => true | .skip _ => true | _ => false
 
-def specC20 (st : Option Schema) (line ans : String) : Option Schema × String :=
+def specC20Main (st : Option Schema) (line ans : String) : Option Schema × String :=
   let ws0 := words line
   match ws0 with
   | "schema" :: _ :: _ :: "ABS" :: rest =>
@@ -628,7 +636,8 @@ def specC20 (st : Option Schema) (line ans : String) : Option Schema × String :
   let expect : String := match ws0 with | "calib" :: e :: _ => e | _ => ""
   let ws := stripCalib ws0
   match st, parseOp ws with
-  | some s, some op =>
+  | some s0, some op =>
+    let s := schemaFor s0 op.syntaxTok
     let impl := parseModeRes ans
     match impl with
     | .panic w =>
@@ -648,7 +657,9 @@ def specC20 (st : Option Schema) (line ans : String) : Option Schema × String :
       if calibBad then (st, "fails calibration-of-reference expected=" ++ expect) else
       if expect == "diff" then (st, "skip") else
       match impl with
-      | .ok _ r _ _ =>
+      | .ok t r _ _ =>
+        -- whatever protoc does with it, an accepted file must yield options that can be serialized
+        if t == "marshal-error" then (st, "fails unserializable-options-after-success") else
         if r != "-" then (st, "fails uninterpreted-left-after-success " ++ r) else
         -- every element that shares the options clause is interpreted from the same statements
         if hasDiff ans then (st, "fails elements-of-one-clause-differ " ++ sharedPart ans) else
@@ -676,5 +687,100 @@ def specC20 (st : Option Schema) (line ans : String) : Option Schema × String :
             else "other"
           (st, "fails protoc-divergence[" ++ tag ++ "] " ++ why)
   | _, _ => (st, "skip")
+
+/-! ## Runs of the real interpreter that the model does not predict (answer suffix after ` ~ `)
+
+  P  = the same file handed over as a FileDescriptorProto without AST (the `…FromProto` value paths,
+       prototext for aggregate values), interpreted strictly;   PL = the same, leniently
+  R  = the strictly interpreted file serialized, read back without extension registry and
+       interpreted again (descriptor input whose options are already interpreted)
+  O  = the file without imports, interpreted with WithOverrideDescriptorProto(descriptor.proto)
+
+These are agreement checks between paths of the REAL code (no model, no protoc reference):
+  S ok ⇒ P = S;   for statements without message literals also S rejects ⇒ P rejects;
+  S ok ⇒ R = S;   O present ⇒ O = S;   P ok ⇒ PL = P. -/
+
+def splitOnce (s sep : String) : String × String :=
+  match s.splitOn sep with
+  | a :: b :: rest => (a, sep.intercalate (b :: rest))
+  | _ => (s, "")
+
+structure Extras where
+  p : String
+  r : String
+  o : String
+  pl : String
+  pu : String := ""
+
+def parseExtras (suffix : String) : Option Extras :=
+  if !suffix.startsWith "P=" then none else
+  let (p, r1) := splitOnce (suffix.drop 2).toString " R="
+  let (r, r2) := splitOnce r1 " O="
+  let (o, r3) := splitOnce r2 " PL="
+  let (pl, pu) := splitOnce r3 " PU="
+  some ⟨p, r, o, pl, pu⟩
+
+def isOk (r : String) : Bool := r.startsWith "ok "
+def isErr (r : String) : Bool := r.startsWith "err "
+
+def hasLiteral (ws : List String) : Bool := ws.contains "{"
+
+def hasRepeatedName (ws : List String) : Bool :=
+  let names := ws.filter (fun w => w.startsWith "n:")
+  names.any (fun n => (names.filter (· == n)).length > 1)
+
+/-- why the proto form may legitimately be known to differ (labels for known findings) -/
+def protoFormCause (ws : List String) (s p : String) : String :=
+  if ws.any (fun w => w.startsWith "ni:") && hasLiteral ws && isErr p then "negative-inf-nan-in-literal"
+  else if ws.contains "i:0" && hasLiteral ws && isErr p then "neg-zero-unsigned-in-literal"
+  else if ws.contains "i:0" && hasLiteral ws && isOk p then "neg-zero-float-sign-in-literal"
+  else if ws.any (fun w => w.startsWith "bn:") && hasLiteral ws && isErr p then "big-negative-integer-in-literal"
+  else if hasRepeatedName ws && isErr p then "field-without-presence-set-again-in-literal"
+  else if isOk p && isOk s then "value"
+  else "other"
+
+def extrasVerdict (ws : List String) (s : String) (u : String) (e : Extras) : Option String :=
+  if s.startsWith "parseerr" || s.startsWith "linkerr" || s.startsWith "panic" then none else
+  if (words s).contains "marshal-error" then none else   -- reported by the main verdict
+  if isOk s && e.p != s then
+    some ("fails proto-form-differs[" ++ protoFormCause ws s e.p ++ "] source=" ++ s ++ " proto=" ++ e.p)
+  else if !hasLiteral ws && isErr s && !isErr e.p then
+    some ("fails proto-form-accepts-what-source-form-rejects source=" ++ s ++ " proto=" ++ e.p)
+  -- with message literals the two parsers differ in what they accept, but where a field may be
+  -- used (target types, message sets) does not depend on the parser
+  -- (not when several map entries are written: a later entry with the same key replaces an earlier
+  -- one in the parsed message, and the replaced value is never looked at in the proto form)
+  else if (s == "err target" || s == "err msgset") && isOk e.p &&
+      (ws.filter (fun w => w == "n:value" || w == "n:key")).length ≤ 2 then
+    some ("fails proto-form-ignores-field-usage[" ++ (if ws.any (fun w => w.startsWith "a:") then "inside-any" else "plain") ++
+      "] source=" ++ s ++ " proto=" ++ e.p)
+  else if isOk s && e.r != "-" && e.r != s then
+    some ("fails reinterpretation-differs first=" ++ s ++ " again=" ++ e.r)
+  else if e.o != "-" && e.o != "" && e.o != s then
+    some ("fails override-descriptor-differs plain=" ++ s ++ " override=" ++ e.o)
+  else if e.pl != "" && isOk e.p && e.pl != e.p then
+    some ("fails proto-form-lenient-differs strict=" ++ e.p ++ " lenient=" ++ e.pl)
+  else if e.pu != "" && isOk s && isOk u && e.pu != u then
+    some ("fails proto-form-unlinked-differs source=" ++ u ++ " proto=" ++ e.pu)
+  else none
+
+def withExtras (main : Option Schema → String → String → Option Schema × String) (strictOf unlinkedOf : String → String)
+    (st : Option Schema) (line ans : String) : Option Schema × String :=
+  let (a, suffix) := splitOnce ans " ~ "
+  let (st', v) := main st line a
+  if v.startsWith "fails" then (st', v) else
+  match parseExtras suffix with
+  | none => (st', v)
+  | some e =>
+    match extrasVerdict (stripCalib (words line)) (strictOf a) (unlinkedOf a) e with
+    | some f => (st', f)
+    | none => (st', v)
+
+def specC20 (st : Option Schema) (line ans : String) : Option Schema × String :=
+  withExtras specC20Main (fun a => a) (fun _ => "") st line ans
+
+def specC21 (st : Option Schema) (line ans : String) : Option Schema × String :=
+  withExtras specC21Main (fun a => match splitModes a with | some (s, _, _, _) => s | none => a)
+    (fun a => match splitModes a with | some (_, _, u, _) => u | none => "") st line ans
 
 end PCV.OptionsSpec
